@@ -249,6 +249,36 @@ pub fn oracle_c15(op: &[&str], out: &str) -> Verdict {
             if again != out || t1 != out || t2 != out {
                 return Verdict::Fail("key generation from the same seed produced different bytes (same thread / other thread / after interleaved calls)".into());
             }
+            // history independence across variants: the other variant with the same seed first, on the same thread
+            let s4 = seed.clone();
+            let t3 = std::thread::spawn(move || {
+                let _ = op_digest(1536 - n, &s4);
+                op_digest(n, &s4)
+            })
+            .join()
+            .unwrap();
+            if t3 != out {
+                return Verdict::Fail("key generation gives different bytes after the other variant was generated from the same seed on the same thread".into());
+            }
+            // every seed bit matters for the key pair itself: first / last bits of the seed and a few in between
+            let mut s32 = seed.clone();
+            s32.resize(32, 0);
+            let bits: Vec<usize> = vec![0, 7, 100, 191, 248, 249, 250, 251, 252, 253, 254, 255];
+            let same: Vec<usize> = std::thread::scope(|sc| {
+                let hs: Vec<_> = bits
+                    .iter()
+                    .map(|&i| {
+                        let mut s = s32.clone();
+                        s[i / 8] ^= 1 << (i % 8);
+                        let out = out.to_string();
+                        sc.spawn(move || if op_digest(n, &s) == out { Some(i) } else { None })
+                    })
+                    .collect();
+                hs.into_iter().filter_map(|h| h.join().unwrap()).collect()
+            });
+            if !same.is_empty() {
+                return Verdict::Fail(format!("flipping seed bit(s) {:?} leaves the key pair unchanged", same));
+            }
             Verdict::Pass
         }
         "first_candidate" => {
